@@ -1,6 +1,8 @@
 import CkbVerif.Driver.Util
 import CkbVerif.Model.Molecule
 import CkbVerif.Model.Json
+import CkbVerif.Model.Hash
+import CkbVerif.Model.HashView
 import CkbVerif.Gen.Schemas
 
 /-! Line-protocol driver for C15 (protocol: harness/hcore/src/c15.rs).
@@ -15,6 +17,16 @@ Stream `json`:
   jp <bits> <string>          -> ok <n> | err          model: `Json.parseUint`
   jb <hex>                    -> <0x-hex string>       model: `Json.showBytes`
   jq <string>                 -> ok <hex> | err        model: `Json.parseBytes`
+
+Stream `view` (harness/hcore/src/c15_term.rs; model: `Model/Hash.lean` over the free term algebra `Dg`):
+  cbmt <n>                    -> <term>                `merkleRoot` over n leaves h<i as 2 bytes LE>
+  vblk <seed> <blockhex>      -> tr=<term> ph=<term> xh=<term>   `resetFields` of the body read from the bytes
+  vpath <k> <blockhex>        -> <dump>                a view built through path k of the view model (`Model/HashView.lean`):
+                                 0 into_view, 1 as_advanced_builder+set_proposals(reversed)+build, 2 …set_transactions(last first),
+                                 3 …extension toggled, 4 …set_uncles(first dropped), 5 into_view_without_reset_header,
+                                 6 packed as_advanced_builder + one proposal + build_unchecked, 7 new_unchecked(_with_extension) with the body reversed
+                                 dump = hash tr ph xh th wh uh (caches) ti (transaction(i) for all i) pp (proposals) ext
+  terms: `0` zero digest, `h<hex>` blake2b(literal bytes), `d(t,..)` blake2b(concatenated digests)
 
 Value syntax (one token): `bHH` byte, `xHEX…` non-empty sequence of bytes, `(v,v,…)` sequence,
 `()` empty sequence, `N` none, `S<v>` some, `U<id>:<v>` union.
@@ -189,8 +201,81 @@ def stepJson (ts : List String) : String :=
     | none => "err"
   | _ => "bad-op"
 
+partial def showDg : CkbVerif.Hash.Dg → String
+  | .zero => "0"
+  | .hb bs => "h" ++ hexOf bs
+  | .hd ds => "d(" ++ ",".intercalate (ds.map showDg) ++ ")"
+  | .hm l ds => "m" ++ hexOf l ++ "(" ++ ",".intercalate (ds.map showDg) ++ ")"
+  | .raw bs => "?" ++ hexOf (bs.take 4)
+
+def showList (l : List String) : String := if l.isEmpty then "-" else ";".intercalate l
+
+open CkbVerif.Hash in
+def dumpView (v : BlockView Dg) : String :=
+  let n := v.data.txs.length
+  let ti := (List.range (n + 2)).map fun i =>
+    match v.transaction i with
+    | some t => showDg t.hash ++ "/" ++ showDg t.witnessHash
+    | none => "none"
+  "hash=" ++ showDg v.hash ++ " tr=" ++ showDg v.data.fields.transactionsRoot ++ " ph=" ++ showDg v.data.fields.proposalsHash
+    ++ " xh=" ++ showDg v.data.fields.extraHash ++ " th=" ++ showList (v.txHashes.map showDg)
+    ++ " wh=" ++ showList (v.txWitnessHashes.map showDg) ++ " uh=" ++ showList (v.uncleHashes.map showDg)
+    ++ " ti=" ++ showList ti ++ " pp=" ++ hexOf v.data.proposals.flatten
+    ++ " ext=" ++ (match v.data.extension with | none => "none" | some e => "x" ++ hexOf e)
+
+open CkbVerif.Hash in
+def viewPath (k : Nat) (b : BlockData Dg) : Option (BlockView Dg) :=
+  let A := termAlg
+  let v0 := intoView A b
+  match k with
+  | 0 => some v0
+  | 1 => some (({ v0.asAdvancedBuilder with proposals := v0.data.proposals.reverse } : BlockBuilder Dg).build A)
+  | 2 =>
+    let ts := v0.asAdvancedBuilder.transactions
+    some (({ v0.asAdvancedBuilder with transactions := ts.drop (ts.length - 1) ++ ts.take (ts.length - 1) } : BlockBuilder Dg).build A)
+  | 3 =>
+    let e : Option Bytes := match v0.data.extension with | some _ => none | none => some []
+    some (({ v0.asAdvancedBuilder with extension := e } : BlockBuilder Dg).build A)
+  | 4 => some (({ v0.asAdvancedBuilder with uncles := v0.asAdvancedBuilder.uncles.drop 1 } : BlockBuilder Dg).build A)
+  | 5 => some (intoViewWithoutReset A b)
+  | 6 =>
+    let bb := b.asAdvancedBuilder A
+    some (({ bb with proposals := bb.proposals ++ [List.replicate 10 6] } : BlockBuilder Dg).buildUnchecked A)
+  | 7 => some (newUnchecked v0.header v0.data.uncles v0.uncleHashes v0.transactions.reverse v0.data.proposals v0.data.extension)
+  | _ => none
+
+def stepView (ts : List String) : String :=
+  match ts with
+  | ["cbmt", n] =>
+    match parseNat? n with
+    | some n =>
+      let leaves := (List.range n).map fun i => CkbVerif.Hash.Dg.hb [UInt8.ofNat (i % 256), UInt8.ofNat (i / 256)]
+      showDg (CkbVerif.Hash.merkleRoot CkbVerif.Hash.termAlg leaves)
+    | none => "bad-op"
+  | ["vpath", k, hx] =>
+    match parseNat? k, unhex hx with
+    | some k, some bs =>
+      match CkbVerif.Hash.BlockData.ofBytes bs with
+      | some b =>
+        match viewPath k b with
+        | some v => dumpView v
+        | none => "bad-op"
+      | none => "err"
+    | _, _ => "bad-op"
+  | ["vblk", _seed, hx] =>
+    match unhex hx with
+    | some bs =>
+      match CkbVerif.Hash.bodyOfBlock bs with
+      | some (_, body) =>
+        let f := CkbVerif.Hash.resetFields CkbVerif.Hash.termAlg body
+        "tr=" ++ showDg f.transactionsRoot ++ " ph=" ++ showDg f.proposalsHash ++ " xh=" ++ showDg f.extraHash
+      | none => "err"
+    | none => "bad-op"
+  | _ => "bad-op"
+
 def main (args : List String) : IO UInt32 :=
   match args with
+  | ["view"] => runLines () (fun _ ts => ((), stepView ts))
   | ["json"] => runLines () (fun _ ts => ((), stepJson ts))
   | _ => runLines () (fun _ ts => ((), stepMol ts))
 
